@@ -130,3 +130,133 @@ def provenance(f):
             out |= prov.get(j, set())
         return out
     return prov, of_expr
+
+
+# ---------------------------------------------------------------- canonical access paths
+
+class APaths:
+    """Name-independent description of where a value comes from: `self.node_vertices[*].1.data.typ`, `Coord{x: .., y: ..}.qubit()`,
+    `param#1.inputs().iter().position(..)`.  Immutable `let` locals are replaced by their initialisers, loop variables by an element of the
+    iterated collection (`[*]`, tuple patterns by `.0` / `.1`, `.values()` / `.keys()` by the map's `.1` / `.0`), closures called without
+    arguments by their bodies, parameters by their position.  Anything else keeps its printed form prefixed with `?` (not canonical)."""
+
+    def __init__(self, f):
+        self.f = f
+        self.lets = {}
+        self.bind = {}      # local id -> canonical text
+        ps = [p for p in f['params']]
+        for i, p in enumerate(ps):
+            if p.get('k') == 'Bind':
+                self.bind[p['id']] = 'self' if p['name'] == 'self' else 'param#%d' % i
+        for n in hir.nodes(f['hir']):
+            k = n.get('k')
+            if k == 'Let' and n.get('init') is not None and not n.get('els'):
+                self._bind_pat(n['pat'], ('expr', n['init']), mutable_ok=False)
+            elif k == 'For':
+                self._bind_pat(n['pat'], ('elem', n['iter']), mutable_ok=True)
+            elif k == 'LetCond' and n.get('init') is not None:
+                self._bind_pat(n['pat'], ('expr', n['init']), mutable_ok=True)
+            elif k == 'Match':
+                for a in n['arms']:
+                    self._bind_pat(a['pat'], ('expr', n['scrut']), mutable_ok=True)
+        self.var_ord = {}
+
+    def _bind_pat(self, pat, src, suffix='', mutable_ok=False):
+        k = pat.get('k')
+        if k == 'Ref':
+            return self._bind_pat(pat['sub'], src, suffix, mutable_ok)
+        if k == 'Bind' and not pat.get('sub'):
+            if not mutable_ok and (pat.get('mode') or '') != 'BindingMode(No, Not)':
+                return
+            self.lets[pat['id']] = (src, suffix)
+        elif k == 'Tuple':
+            for i, sp in enumerate(pat['sub']):
+                self._bind_pat(sp, src, suffix + '.%d' % i, mutable_ok)
+        elif k == 'TupleStruct' and len(pat['sub']) == 1 and (hir.pat_ctor(pat) or '').rsplit('::', 1)[-1] in ('Some', 'Ok'):
+            self._bind_pat(pat['sub'][0], src, suffix + '.' + (hir.pat_ctor(pat) or '').rsplit('::', 1)[-1].lower(), True)
+
+    def _elem(self, it):
+        """canonical text of an element of the iterated expression"""
+        e = hir.strip(it)
+        suffix = ''
+        while e.get('k') == 'MethodCall' and e['name'] in ('iter', 'into_iter', 'iter_mut', 'values', 'keys', 'into_values', 'into_keys', 'values_mut', 'copied', 'cloned', 'by_ref'):
+            if e['name'] in ('values', 'into_values', 'values_mut'):
+                suffix = '.1' + suffix
+            if e['name'] in ('keys', 'into_keys'):
+                suffix = '.0' + suffix
+            e = hir.strip(e['recv'])
+        return self.of(e) + '[*]' + suffix
+
+    def of(self, e, depth=0):
+        e = hir.strip(e)
+        if depth > 12:
+            return '?deep'
+        k = e.get('k')
+        l = hir.local(e)
+        if l:
+            i = l[1]
+            if i in self.bind:
+                return self.bind[i]
+            if i in self.lets:
+                (kind, src), suffix = self.lets[i]
+                base = self.of(src, depth + 1) if kind == 'expr' else self._elem(src)
+                if suffix and kind == 'expr':
+                    s0 = hir.strip(src)
+                    if s0.get('k') == 'Tup':
+                        parts = suffix.strip('.').split('.')
+                        cur, used = s0, 0
+                        for x in parts:
+                            if x.isdigit() and cur.get('k') == 'Tup' and int(x) < len(cur['items']):
+                                cur = hir.strip(cur['items'][int(x)])
+                                used += 1
+                            else:
+                                break
+                        if used:
+                            return self.of(cur, depth + 1) + ''.join('.' + x for x in parts[used:])
+                return base + suffix
+            ty = (e.get('ty') or '').replace('&', '').replace('mut ', '').strip()
+            if ty:
+                n_ = self.var_ord.setdefault(i, len(self.var_ord))
+                return 'var<%s>#%d' % (ty, n_)
+            return '?local:' + l[0]
+        if k == 'Field':
+            return self.of(e['e'], depth + 1) + '.' + e['name']
+        if k == 'MethodCall':
+            if e['name'] in ('clone', 'to_owned', 'as_str', 'as_ref', 'borrow', 'to_string', 'copied', 'cloned', 'into') and not e['args']:
+                return self.of(e['recv'], depth + 1)
+            return '%s.%s(%s)' % (self.of(e['recv'], depth + 1), e['name'], ', '.join(self.of(a, depth + 1) for a in e['args']))
+        if k == 'Call':
+            fn = hir.strip(e['fun'])
+            fl = hir.local(fn)
+            if fl and fl[1] in self.lets and not e['args']:
+                (kind, src), _sfx = self.lets[fl[1]]
+                c = hir.strip(src) if kind == 'expr' else {}
+                if c.get('k') == 'Closure' and not c['params']:
+                    return self.of(c['body'], depth + 1)
+            a = hir.ctor_call(e, 'Some')
+            if a is not None:
+                return 'Some(%s)' % self.of(a[0], depth + 1)
+            return '%s(%s)' % (hir.short(hir.callee(e) or '') if hir.callee(e) else '?fn', ', '.join(self.of(a, depth + 1) for a in e['args']))
+        if k == 'Struct':
+            return '%s{%s}' % (hir.short(e['ctor'].get('path')), ', '.join('%s: %s' % (n, self.of(v, depth + 1)) for n, v in sorted(e['fields'], key=lambda z: z[0])))
+        if k == 'Index':
+            return '%s[%s]' % (self.of(e['e'], depth + 1), self.of(e['i'], depth + 1))
+        if k == 'Tup':
+            return '(%s)' % ', '.join(self.of(x, depth + 1) for x in e['items'])
+        if k == 'Path':
+            return hir.short(hir.def_path(e) or '') if hir.def_path(e) else '?path'
+        if k == 'Lit':
+            return hir.pp(e)
+        if k == 'Cast':
+            return self.of(e['e'], depth + 1)
+        if k == 'Binary':
+            return '(%s %s %s)' % (self.of(e['l'], depth + 1), hir.BINOP.get(e['op'], e['op']), self.of(e['r'], depth + 1))
+        if k == 'Unary':
+            return '%s%s' % ({'Not': '!', 'Neg': '-'}.get(e['op'], ''), self.of(e['e'], depth + 1))
+        if k == 'Block' and not e['stmts'] and e.get('expr') is not None:
+            return self.of(e['expr'], depth + 1)
+        if k == 'Match' and len(e['arms']) <= 6 and depth < 6:
+            return 'match(%s){%s}' % (self.of(e['scrut'], depth + 1), '; '.join('%s => %s' % (hir.pp_pat(a['pat']), self.of(a['body'], depth + 2)) for a in e['arms']))
+        if k == 'Try':
+            return self.of(e['e'], depth + 1) + '?'
+        return '?' + hir.pp(e)[:40]
